@@ -311,7 +311,7 @@ def regen_constants():
 class C09(Property):
     id = "C09"
     title = "HTTP router dispatches every request to the right route with the right variables"
-    quick_cases = 700
+    quick_cases = 600
     thorough_cases = 8000
     design_ref = "DESIGN.md §6/C09"
     level_text = ("Unbounded Rocq theorems. Router (every list of Handle calls, every request method and path): the per-method "
@@ -1214,6 +1214,12 @@ class C09(Property):
     def _shrink_server(self, case):
         res = []
         reqs, events, tables = case["reqs"], case["events"], case["tables"]
+        if len(reqs) > 16:
+            # a long request list (the fixed families): single requests and halves first - removing one request at a time
+            # would mean hundreds of almost full-size candidates per round
+            res += [dict(case, reqs=[rq]) for rq in reqs][:200]
+            h = len(reqs) // 2
+            return res + [dict(case, reqs=reqs[:h]), dict(case, reqs=reqs[h:])]
         for i in range(len(reqs)):
             if len(reqs) > 1:
                 res.append(dict(case, reqs=reqs[:i] + reqs[i + 1:]))
@@ -1266,6 +1272,10 @@ class C09(Property):
             return self._shrink_server(case)
         res = []
         regs, reqs = case["regs"], case["reqs"]
+        if len(reqs) > 24:
+            res += [dict(case, reqs=[rq]) for rq in reqs][:200]
+            h = len(reqs) // 2
+            return res + [dict(case, reqs=reqs[:h]), dict(case, reqs=reqs[h:])]
         for i in range(len(reqs)):
             if len(reqs) > 1:
                 res.append(dict(case, reqs=reqs[:i] + reqs[i + 1:]))
